@@ -195,6 +195,9 @@ class TypeNode:
 
 
 def _level(t: typing.Any) -> typing.Iterable[tuple[str | None, type]]:
+    # The parameters of a callable are never converted (and `[int]` is not hashable).
+    if inspection.isunresolvable(t):
+        return
     args = inspection.args(t)
     # Only pull annotations from the signature if this is a user-defined type.
     is_structured = inspection.isstructuredtype(t)
